@@ -223,7 +223,7 @@ QT_NAMES = ['net', 'net.http', 'net.http.client', 'network', 'app', 'app.ui', 'a
 def gen_qt_case(rng, qh):
     """rules Qt's parser reads the same way: one '=', ASCII, no blanks inside the name, '*' only at the start
     and/or the end; categories outside the known quirks of QLoggingRule::pass (see qt_comparable)"""
-    pats, lines = [], []
+    pats, lines, keys = [], [], []
     for _ in range(rng.choice([1, 2, 2, 3, 4, 6])):
         name = rng.choice(QT_NAMES)
         i, j = sorted((rng.randint(0, len(name)), rng.randint(0, len(name))))
@@ -235,22 +235,28 @@ def gen_qt_case(rng, qh):
         sp = lambda: rng.choice(['', '', ' ', '\t', '  '])
         lines.append(sp() + pat + suf + sp() + '=' + sp() + val + sp())
         pats.append(pat)
+        keys.append(pat + suf)
     rules = rng.choice([';', '\n', '\r\n', ';\n']).join(lines)
     cats = []
     for _ in range(5):
         k = rng.random()
         c = instantiate(rng, rng.choice(pats)) if k < 0.5 else (perturb(rng, instantiate(rng, rng.choice(pats))) if k < 0.7 else rng.choice(QT_NAMES))
         cats.append(c)
-    cats = [c for c in cats if qt_comparable(pats, c)] or ['app.core']
+    cats = [c for c in cats if qt_comparable(keys, c)] or ['app.core']
     return rules, cats
 
 
 def qt_comparable(pats, cat):
+    """pats = the rule keys (pattern with its type suffix, as written left of '=')"""
     if '\\' in cat or '%' in cat:
         return False            # Qt passes rule keys through QSettings' iniUnescapedKey (backslash, %XX)
     if not cat or not cat.isascii() or '\n' in cat or '\x00' in cat or cat == 'qt' or cat.startswith('qt.'):
         return False            # Qt reads the name as Latin-1; "qt*" categories have debug off by default
     for p in pats:
+        for sfx in ('.debug', '.info', '.warning', '.critical'):     # both parsers strip exactly one type suffix
+            if p.endswith(sfx) and len(p) > len(sfx):
+                p = p[:-len(sfx)]
+                break
         lit = p.strip('*')
         if '*' in lit:
             return False
